@@ -940,3 +940,303 @@ def run(chk):       # noqa: F811
     rt = R.Routing(idx)
     rt.analyse()
     rule_reskeys(chk, idx, Runner(idx, rt))
+
+
+# =====================================================================================================
+# C19.config-attrs (lead): interface agreement between readers of self.config and the configuration classes
+# =====================================================================================================
+# A base extractor / parser reads `self.config.<attr>`; the language packages supply concrete configuration classes.  An
+# attribute one of them lacks is an AttributeError when that line runs; the models swallow it, so the entity (or every entity
+# of the query) silently disappears - for the language with the hole only, which no shared test notices.  Pairs are formed
+# from (a) the annotation of the reader's `config` parameter / class-level `config:` annotation -> every concrete subclass of
+# the annotated type, and (b) `self.config = K(...)` / `Base.__init__(self, K(...))` in the reader's own constructor.
+# Reads are collected over the reader's MRO (first definition of each method wins).
+
+CONFIG_ATTR_EXEMPT = {
+    # (reader class, attribute): reason - each triaged against the real code
+    ('BaseDatePeriodParser', 'written_decades'): 'decade parsing (__parse_decade) is an unfinished port: the function also uses '
+                                                 '.NET match objects; "the 1990s" yields a daterange without resolution and the '
+                                                 'Specs cases are marked NotSupported for python',
+    ('BaseDatePeriodParser', 'special_decade_cases'): 'same unfinished __parse_decade',
+    ('BaseDatePeriodParser', 'numbers'): 'same unfinished __parse_decade',
+    ('BaseDatePeriodParser', 'integer_extractor'): 'same unfinished __parse_decade',
+    ('BaseDatePeriodParser', 'number_parser'): 'same unfinished __parse_decade',
+    ('BaseTimeZoneExtractor', 'ambiguous_time_zone_list'): 'remove_ambiguous_time_zone runs only under the option-gated '
+                                                           'time-zone extraction, which the Python models never enable',
+    ('ChineseDateTimePeriodParser', 'next_regex'): 'unreachable: the identical exact-match test a few lines above returns on '
+                                                  'every path, so the second test of specific_time_of_day_regex never holds',
+    ('ChineseDateTimePeriodParser', 'last_regex'): 'unreachable, same block as next_regex',
+}
+# methods that nothing calls (copied from a sibling class): reads inside them are not judged
+CONFIG_DEAD_METHODS = {
+    ('PortugueseTimeParser', 'parse_specific_time_of_day'): 'copy of the date-time-period parser\'s method; BaseTimeParser never '
+                                                            'calls it and nothing else references it',
+}
+
+
+def _cfg_defined(idx, c):
+    out = set()
+    for k in idx.mro(c):
+        out |= set(k.attrs)
+        for name, fn in k.methods.items():
+            # an abstract declaration (or a body that only raises NotImplementedError) defines nothing
+            if any((isinstance(d, ast.Name) and d.id == 'abstractmethod') or (isinstance(d, ast.Attribute) and d.attr == 'abstractmethod')
+                   for d in fn.decorator_list):
+                continue
+            body = [st for st in fn.body if not (isinstance(st, ast.Expr) and isinstance(st.value, ast.Constant))]
+            if len(body) == 1 and isinstance(body[0], ast.Raise) and 'NotImplementedError' in ast.dump(body[0]):
+                continue
+            out.add(name)
+        for st in k.node.body:
+            if isinstance(st, ast.AnnAssign) and isinstance(st.target, ast.Name) and (st.value is not None or not _cfg_abstract(k)):
+                out.add(st.target.id)
+        for fn in k.methods.values():
+            for n in ast.walk(fn):
+                if isinstance(n, ast.Attribute) and isinstance(n.ctx, ast.Store) and isinstance(n.value, ast.Name) \
+                        and n.value.id == 'self':
+                    out.add(n.attr)
+    return out
+
+
+def _cfg_abstract(c):
+    for fn in c.methods.values():
+        for d in fn.decorator_list:
+            if (isinstance(d, ast.Name) and d.id == 'abstractmethod') or (isinstance(d, ast.Attribute) and d.attr == 'abstractmethod'):
+                return True
+    return False
+
+
+def _cfg_open(idx, c):
+    """a class with a base the index cannot resolve (other than object / ABC / Generic) may inherit anything: not judged"""
+    for k in idx.mro(c):
+        for b in k.node.bases:
+            nm = b.id if isinstance(b, ast.Name) else b.attr if isinstance(b, ast.Attribute) else \
+                (b.value.id if isinstance(b, ast.Subscript) and isinstance(b.value, ast.Name) else '?')
+            if nm in ('object', 'ABC', 'Generic', 'Protocol'):
+                continue
+            if idx.resolve_class(k.mod, b) is None:
+                return True
+    return False
+
+
+def _stores_param(idx, r):
+    """does r's constructor keep its first parameter as self.config (directly or by handing it to a base constructor)?"""
+    _k, init = idx.find_method(r, '__init__')
+    if init is None:
+        return False
+    ps = [a.arg for a in init.args.args if a.arg not in ('self', 'cls')]
+    if not ps:
+        return False
+    p = ps[0]
+    for n in ast.walk(init):
+        if isinstance(n, ast.Assign) and isinstance(n.value, ast.Name) and n.value.id == p and any(
+                isinstance(t, ast.Attribute) and t.attr in ('config', '_config') for t in n.targets):
+            return True
+        if isinstance(n, ast.Call) and isinstance(n.func, ast.Attribute) and n.func.attr == '__init__' and any(
+                isinstance(a, ast.Name) and a.id == p for a in n.args):
+            return True
+    return False
+
+
+def config_pairs(idx):
+    """[(reader Cls, config Cls, how)] from the construction sites of the program: `R(K(...))` anywhere (the language
+    packages wire readers this way), and `self.config = K(...)` / `Base.__init__(self, K(...))` in a reader's constructor.
+    Parameter annotations are NOT used: PortugueseTimeParser annotates a configuration type it is never given."""
+    pairs = []
+    for m in idx.mods.values():
+        if not m.name.startswith('recognizers_') or '.resources.' in m.name:
+            continue
+        for n in ast.walk(m.tree):
+            if not (isinstance(n, ast.Call) and n.args and isinstance(n.args[0], ast.Call)):
+                continue
+            r = idx.resolve_class(m, n.func)
+            k = idx.resolve_class(m, n.args[0].func)
+            if r is None or k is None or 'onfig' not in k.name or 'onfig' in r.name:
+                continue
+            if not _stores_param(idx, r):
+                continue        # e.g. BooleanExtractor builds its own ChoiceExtractorConfiguration from the argument
+            pairs.append((r, k, 'constructed at %s:%d' % (m.name, n.lineno)))
+    for c in idx.all_classes():
+        if not c.mod.name.startswith('recognizers_') or '.resources.' in c.mod.name:
+            continue
+        init = c.methods.get('__init__')
+        if init is None:
+            continue
+        for n in ast.walk(init):
+            val = None
+            if isinstance(n, ast.Assign) and any(isinstance(t, ast.Attribute) and t.attr in ('config', '_config')
+                                                and isinstance(t.value, ast.Name) and t.value.id == 'self' for t in n.targets):
+                val = n.value
+            elif isinstance(n, ast.Call) and isinstance(n.func, ast.Attribute) and n.func.attr == '__init__':
+                for a in n.args:
+                    if isinstance(a, ast.Call):
+                        k = idx.resolve_class(c.mod, a.func)
+                        if k is not None and 'onfig' in k.name:
+                            pairs.append((c, k, 'constructed in %s.__init__' % c.name))
+            if isinstance(val, ast.Call):
+                k = idx.resolve_class(c.mod, val.func)
+                if k is not None:
+                    pairs.append((c, k, 'constructed in %s.__init__' % c.name))
+    return pairs
+
+
+_EXTERNAL_REFS = {}
+
+
+def _external_refs(idx):
+    """{attribute name: set of class quals in whose bodies it is referenced} over the whole program"""
+    if not _EXTERNAL_REFS:
+        for m in idx.mods.values():
+            if not m.name.startswith('recognizers_') or '.resources.' in m.name:
+                continue
+            for cname, c in m.classes.items():
+                for n in ast.walk(c.node):
+                    if isinstance(n, ast.Attribute) and isinstance(n.ctx, ast.Load):
+                        v = n.value
+                        if (isinstance(v, ast.Name) and v.id in ('self', 'cls')) or (
+                                isinstance(v, ast.Call) and isinstance(v.func, ast.Name) and v.func.id == 'super'):
+                            continue        # a class's reference to its own method says nothing about other hierarchies
+                        _EXTERNAL_REFS.setdefault(n.attr, set()).add(c.qual)
+            for fn in m.funcs.values():
+                for n in ast.walk(fn):
+                    if isinstance(n, ast.Attribute) and isinstance(n.ctx, ast.Load):
+                        _EXTERNAL_REFS.setdefault(n.attr, set()).add(m.name)
+    return _EXTERNAL_REFS
+
+
+def reachable_methods(idx, c):
+    """[(owner Cls, fn)] of the methods an instance of c can execute: entry points are extract / parse / properties and any
+    method whose name is referenced outside c's own class hierarchy; closure over self.<m>, super().<m> and Base.<m>(self)"""
+    mro = idx.mro(c)
+    family = {k.qual for k in mro}
+    refs = _external_refs(idx)
+    names = {}
+    for k in mro:
+        for name, fn in k.methods.items():
+            names.setdefault(name, (k, fn))
+    work, seen, out = [], set(), []
+
+    def push(owner, fn):
+        if id(fn) not in seen:
+            seen.add(id(fn))
+            work.append((owner, fn))
+            out.append((owner, fn))
+    for name, (k, fn) in names.items():
+        if name in ('extract', 'parse', '__init__') or any(isinstance(d, ast.Name) and d.id == 'property' for d in fn.decorator_list) \
+                or (refs.get(name, set()) - family):
+            push(k, fn)
+    while work:
+        owner, fn = work.pop()
+        for n in ast.walk(fn):
+            if not isinstance(n, ast.Attribute) or not isinstance(n.ctx, ast.Load):
+                continue
+            v = n.value
+            if isinstance(v, ast.Name) and v.id in ('self', 'cls') and n.attr in names:
+                push(*names[n.attr])
+            elif isinstance(v, ast.Call) and isinstance(v.func, ast.Name) and v.func.id == 'super':
+                for k in idx.mro(owner)[1:]:
+                    if n.attr in k.methods:
+                        push(k, k.methods[n.attr])
+                        break
+            elif isinstance(v, ast.Name):
+                bk = idx.resolve_class(owner.mod, v)
+                if bk is not None and bk in mro:
+                    kk, f2 = idx.find_method(bk, n.attr)
+                    if f2 is not None:
+                        push(kk, f2)
+    return out
+
+
+def config_reads(idx, c):
+    """{attr: (Cls, lineno)} for self.config.<attr> loads in the methods an instance of c can execute"""
+    reads = {}
+    for k, fn in reachable_methods(idx, c):
+        if (k.name, fn.name) in CONFIG_DEAD_METHODS:
+            continue
+        for n in ast.walk(fn):
+            if isinstance(n, ast.Attribute) and isinstance(n.ctx, ast.Load) and isinstance(n.value, ast.Attribute) \
+                    and n.value.attr in ('config', '_config') and isinstance(n.value.value, ast.Name) and n.value.value.id == 'self':
+                reads.setdefault(n.attr, (k, n.lineno))
+    return reads
+
+
+def rule_config_attrs(chk, idx):
+    rid = 'C19.config-attrs'
+    chk.rule(rid, 'every attribute a reader takes from self.config is defined by every concrete configuration class it can be '
+                  'given', floor=500, control=True)
+    pairs = config_pairs(idx)
+    done = set()
+    n_open = 0
+    groups = {}
+    for r, k, how in pairs:
+        if (r.qual, k.qual) in done:
+            continue
+        done.add((r.qual, k.qual))
+        if _cfg_open(idx, k):
+            n_open += 1
+            continue
+        have = _cfg_defined(idx, k)
+        for attr, (owner, ln) in sorted(config_reads(idx, r).items()):
+            key = (owner.name, attr)
+            g = groups.setdefault((owner, attr, ln), {'ok': 0, 'missing': []})
+            if attr in have:
+                g['ok'] += 1
+            else:
+                g['missing'].append(k)
+    used_exempt = set()
+    for (owner, attr, ln), g in sorted(groups.items(), key=lambda kv: (kv[0][0].qual, kv[0][1])):
+        chk.consulted(owner.mod.path)
+        construct = '%s reads self.config.%s' % (owner.name, attr)
+        miss = sorted({k.name for k in g['missing']})
+        if not miss:
+            chk.ok(rid, owner.mod.path, construct, 'defined by all %d configuration classes' % g['ok'], ln)
+        elif (owner.name, attr) in CONFIG_ATTR_EXEMPT:
+            used_exempt.add((owner.name, attr))
+            chk.exempt(rid, owner.mod.path, construct, CONFIG_ATTR_EXEMPT[(owner.name, attr)],
+                       'missing in %d of %d' % (len(miss), len(miss) + g['ok']), ln)
+        else:
+            chk.bad(rid, owner.mod.path, construct, 'missing in: ' + ', '.join(miss),
+                    '%s.%s is read at line %d but %s do(es) not define it (no property, method, class attribute or self.%s '
+                    'assignment in the MRO): AttributeError when that line runs with that configuration - swallowed by the '
+                    'model, so entities of that language silently disappear' % ('self.config', attr, ln, ', '.join(miss), attr), ln)
+    for (cn, mn), why in sorted(CONFIG_DEAD_METHODS.items()):
+        refs = 0
+        for m in idx.mods.values():
+            if m.name.startswith('recognizers_') and '.resources.' not in m.name:
+                refs += sum(1 for n in ast.walk(m.tree) if isinstance(n, ast.Attribute) and n.attr == mn and isinstance(n.ctx, ast.Load))
+        c0 = idx.cls(cn)
+        bases_have = any(mn in kk.methods for kk in idx.mro(c0)[1:])
+        construct = '%s.%s (reads not judged)' % (cn, mn)
+        # references elsewhere are to same-named methods of other classes; what matters is that no base class of this one
+        # declares or calls the method
+        base_calls = any(isinstance(n, ast.Attribute) and n.attr == mn for kk in idx.mro(c0)[1:] for f in kk.methods.values()
+                         for n in ast.walk(f))
+        if bases_have or base_calls:
+            chk.bad(rid, c0.mod.path, construct, 'now referenced by a base class',
+                    '%s.%s was exempted as dead code but a base class now defines or calls it: its self.config reads must be '
+                    'judged' % (cn, mn), c0.methods[mn].lineno if mn in c0.methods else None)
+        elif mn in c0.methods:
+            chk.exempt(rid, c0.mod.path, construct, why, '%d same-named references elsewhere' % refs, c0.methods[mn].lineno)
+    stale = set(CONFIG_ATTR_EXEMPT) - used_exempt
+    if stale:
+        chk.observe('C19.config-attrs: exemptions no longer needed (now defined everywhere or reader gone): %s'
+                    % ', '.join('%s.%s' % e for e in sorted(stale)))
+    chk.observe('C19.config-attrs: %d (reader, configuration) pairs, %d skipped because the configuration has a base class '
+                'outside the index' % (len(done), n_open))
+    # control: a reader/config pair with a hole
+    ctl_src = ('class K:\n    def __init__(self):\n        self.a = 1\n'
+               'class R:\n    def __init__(self, config: K):\n        self.config = config\n'
+               '    def f(self):\n        return self.config.a + self.config.b\n')
+    t = ast.parse(ctl_src)
+    kdef = {n.attr for n in ast.walk(t.body[0]) if isinstance(n, ast.Attribute) and isinstance(n.ctx, ast.Store)}
+    rreads = {n.attr for n in ast.walk(t.body[1]) if isinstance(n, ast.Attribute) and isinstance(n.ctx, ast.Load)
+              and isinstance(n.value, ast.Attribute) and n.value.attr == 'config'}
+    chk.control(rid, rreads - kdef == {'b'})
+
+
+_run_before_cfgattrs = run
+
+
+def run(chk):       # noqa: F811
+    _run_before_cfgattrs(chk)
+    rule_config_attrs(chk, get_index())
